@@ -302,3 +302,165 @@ Proof.
   apply (auto_patch_undone_b f root ops g c ck Hr Ht Hn); try assumption.
   exact (parse_patch_ok text ops Hp).
 Qed.
+
+(* ====================================================================================== *)
+(* the other half: when the checkpoint of the affected paths cannot be taken, the patch does not apply *)
+(* ====================================================================================== *)
+From RipV Require Proofs.FsProofs Proofs.PatchAtomic.
+
+Lemma map_res_err {A B} (g : A -> res B) : forall l e, map_res g l = Err e -> exists x e', In x l /\ g x = Err e'.
+Proof.
+  induction l as [|x l IH]; intros e H; cbn [map_res] in H; [discriminate|].
+  destruct (g x) as [y|e0] eqn:Ex; [|exists x, e0; split; [left; reflexivity|exact Ex]].
+  destruct (map_res g l) as [ys|e1] eqn:El; [discriminate|].
+  destruct (IH e1 eq_refl) as (x' & e' & Hin & Hx). exists x', e'. split; [right; exact Hin|exact Hx].
+Qed.
+
+(* create can only fail, for paths the parser accepts, because an affected path is a (reachable) directory *)
+Lemma create_err_dir f root raws e : is_absolute root = true -> (forall p, In p raws -> okp p) ->
+  create f root raws = Err e -> exists p, In p raws /\ lookup f (pk p) = Some Dir /\ dirs_ok f [] (pk p) = None.
+Proof.
+  intros Hr Hok H. unfold create in H.
+  destruct (map_res (to_relative root) raws) as [rels|e0] eqn:Er.
+  - destruct (map_res_err _ _ _ H) as (rel & e' & Hin & Hs).
+    destruct (map_res_in _ _ _ Er rel Hin) as (raw & Hraw & Et).
+    destruct (Hok raw Hraw) as [Ha Hp].
+    destruct (proj2 (to_relative_relative root raw Hr Ha) Hp) as (rel' & Et' & Ereal). rewrite Et in Et'. inversion Et'; subst rel'.
+    exists raw. split; [exact Hraw|].
+    assert (Ek : key rel = pk raw) by (unfold key, pk; rewrite Ereal; reflexivity).
+    rewrite <- Ek. split; [eapply save_one_err_dir; exact Hs|].
+    unfold save_one in Hs. destruct (os_exists f (tgt_of rel)) eqn:Ex; [|discriminate].
+    unfold os_exists, pre_err in Ex. cbn [tgt_of t_nul t_base t_comps] in Ex. change (real_segs rel) with (key rel) in Ex.
+    destruct (dirs_ok f [] (key rel)); [discriminate|reflexivity].
+  - exfalso. destruct (map_res_err _ _ _ Er) as (raw & e' & Hin & Ht).
+    destruct (Hok raw Hin) as [Ha Hp].
+    destruct (proj2 (to_relative_relative root raw Hr Ha) Hp) as (rel & Et & _). rewrite Et in Ht. discriminate.
+Qed.
+
+(* a reachable directory at k *)
+Definition dir_at (g : fs) (k : path) : Prop := lookup g k = Some Dir /\ dirs_ok g [] k = None.
+
+Lemma dir_at_mono g g' k : FsProofs.dirs_le g g' -> dir_at g k -> dir_at g' k.
+Proof. intros D [L O]. split; [apply D; exact L|]. eapply dirs_ok_mono; [exact D|exact O]. Qed.
+
+Lemma dir_at_set_file g k kp b : dir_at g k -> lookup g kp <> Some Dir -> dir_at (set g kp (File b)) k.
+Proof.
+  intros [L O] Hn. assert (Hne : kp <> k) by (intros ->; contradiction). split.
+  - rewrite lookup_set_other by exact Hne. exact L.
+  - rewrite <- O. apply dirs_ok_ext. intros pre suf E Hp Hs. cbn [app]. apply lookup_set_other. intros ->.
+    pose proof (dirs_ok_none_prefix g k [] O pre suf E Hp Hs) as LD. cbn [app] in LD. contradiction.
+Qed.
+
+Lemma tg_pre_err g p : pre_err g (Patch.tg [] p) = if has_nul p then Some EINVAL else dirs_ok g [] (pk p).
+Proof. reflexivity. Qed.
+
+Lemma dir_exists g p : dir_at g (pk p) -> has_nul p = false -> os_exists g (Patch.tg [] p) = true.
+Proof.
+  intros [L O] Hn. unfold os_exists. rewrite tg_pre_err, Hn, O. rewrite tg_path, L. reflexivity.
+Qed.
+Lemma nul_not_exists g p : has_nul p = true -> os_exists g (Patch.tg [] p) = false.
+Proof. intros Hn. unfold os_exists. rewrite tg_pre_err, Hn. reflexivity. Qed.
+Lemma dir_read g p : dir_at g (pk p) -> exists e, os_read g (Patch.tg [] p) = Err e.
+Proof.
+  intros [L O]. unfold os_read. rewrite tg_pre_err. destruct (has_nul p); [eexists; reflexivity|].
+  rewrite O, tg_path, L. eexists; reflexivity.
+Qed.
+Lemma dir_remove g p : dir_at g (pk p) -> exists e, os_remove_file g (Patch.tg [] p) = Err e.
+Proof.
+  intros [L O]. unfold os_remove_file. rewrite tg_pre_err. destruct (has_nul p); [eexists; reflexivity|].
+  rewrite O, tg_path, L. eexists; reflexivity.
+Qed.
+Lemma dir_write g p d : dir_at g (pk p) -> exists e, os_write g (Patch.tg [] p) d = Err e.
+Proof.
+  intros [L O]. unfold os_write. rewrite tg_pre_err. destruct (has_nul p); [eexists; reflexivity|].
+  rewrite O, tg_path, L. eexists; reflexivity.
+Qed.
+Lemma dir_rename_dst g src p : dir_at g (pk p) -> exists e, os_rename_file g src (Patch.tg [] p) = Err e.
+Proof.
+  intros [L O]. unfold os_rename_file. destruct (pre_err g src); [eexists; reflexivity|].
+  destruct (lookup g (t_path src)) as [[b|]|]; try (eexists; reflexivity).
+  destruct (t_trail src); try (eexists; reflexivity).
+  rewrite tg_pre_err. destruct (has_nul p); [eexists; reflexivity|]. rewrite O, tg_path, L. eexists; reflexivity.
+Qed.
+
+Lemma mkpar_dir_at g t g1 er k : mk_parent_dirs g t = (g1, er) -> dir_at g k -> dir_at g1 k.
+Proof.
+  intros H D. apply (dir_at_mono g g1 k); [|exact D]. unfold mk_parent_dirs in H.
+  destruct (comps_nul (removelast (t_comps t))); [inversion H; subst g1; intros q Hq; exact Hq|].
+  intros q Hq. destruct (mkdir_all_lookup _ _ _ _ _ H q) as [E|[E1 _]]; [rewrite E; exact Hq|rewrite Hq in E1; discriminate].
+Qed.
+
+(* an operation that names a path at which a directory stands fails *)
+Lemma exec_dir_fails s o s' r p : In p (Patch.op_paths o) -> dir_at (Patch.s_fs s) (pk p) ->
+  Patch.exec [] s o = (s', r) -> r <> None.
+Proof.
+  intros Hin D H Hr. subst r. destruct o as [p0 content|p0|p0 mv hs]; unfold Patch.exec in H.
+  - destruct Hin as [<-|[]].
+    destruct (os_exists (Patch.s_fs s) (Patch.tg [] p0)) eqn:Ex; [discriminate|].
+    destruct (Patch.record_undo [] s p0) as [s1|e] eqn:Eu; [|discriminate].
+    pose proof (record_undo_fs _ _ _ Eu) as E1.
+    destruct (mk_parent_dirs (Patch.s_fs s1) (Patch.tg [] p0)) as [f2 [e|]] eqn:Em; [discriminate|].
+    rewrite E1 in Em. destruct (dir_write f2 p0 content (mkpar_dir_at _ _ _ _ _ Em D)) as [e Ew]. rewrite Ew in H. discriminate.
+  - destruct Hin as [<-|[]].
+    destruct (negb (os_exists (Patch.s_fs s) (Patch.tg [] p0))); [discriminate|].
+    destruct (Patch.record_undo [] s p0) as [s1|e] eqn:Eu; [|discriminate].
+    pose proof (record_undo_fs _ _ _ Eu) as E1.
+    rewrite E1 in H. destruct (dir_remove _ p0 D) as [e Er]. rewrite Er in H. discriminate.
+  - destruct (negb (os_exists (Patch.s_fs s) (Patch.tg [] p0))); [discriminate|].
+    destruct (Patch.record_undo [] s p0) as [s1|e] eqn:Eu; [|discriminate].
+    pose proof (record_undo_fs _ _ _ Eu) as E1. rewrite E1 in H.
+    destruct (os_read (Patch.s_fs s) (Patch.tg [] p0)) as [b|e] eqn:Erd; [|discriminate].
+    assert (Hp0 : p <> p0 \/ False).
+    { left. intros ->. destruct (dir_read _ p0 D) as [e Ee]. rewrite Ee in Erd. discriminate. }
+    destruct (negb (utf8_ok b)); [discriminate|].
+    destruct (Patch.apply_hunks_to_text b hs) as [b'|]; [|discriminate].
+    destruct (os_write (Patch.s_fs s) (Patch.tg [] p0) b') as [f2|e] eqn:Ew; [|discriminate].
+    destruct mv as [q|].
+    2:{ destruct Hin as [<-|[]]. destruct Hp0 as [X|[]]. apply X; reflexivity. }
+    destruct Hin as [<-|[<-|[]]]; [destruct Hp0 as [X|[]]; apply X; reflexivity|].
+    destruct (os_write_ok _ _ _ _ Ew) as (E2 & _ & Hnd). rewrite tg_path in E2, Hnd.
+    assert (D2 : dir_at f2 (pk q)) by (rewrite E2; apply dir_at_set_file; assumption).
+    cbn [Patch.with_fs Patch.s_fs] in H.
+    destruct (os_exists f2 (Patch.tg [] q)) eqn:Ex; [discriminate|].
+    destruct (Patch.record_undo [] (Patch.with_fs s1 f2) q) as [s3|e] eqn:Eu3; [|discriminate].
+    pose proof (record_undo_fs _ _ _ Eu3) as E3. cbn [Patch.with_fs Patch.s_fs] in E3.
+    destruct (mk_parent_dirs (Patch.s_fs s3) (Patch.tg [] q)) as [f4 [e|]] eqn:Em; [discriminate|].
+    rewrite E3 in Em. destruct (dir_rename_dst f4 (Patch.tg [] p0) q (mkpar_dir_at _ _ _ _ _ Em D2)) as [e En].
+    rewrite En in H. discriminate.
+Qed.
+
+Lemma run_dir_fails : forall ops s s' r p, FsProofs.fs_wf (Patch.s_fs s) -> In p (Patch.affected_paths ops) ->
+  dir_at (Patch.s_fs s) (pk p) -> Patch.run [] s ops = (s', r) -> r <> None.
+Proof.
+  induction ops as [|o ops IH]; intros s s' r p W Hin D H; [destruct Hin|].
+  cbn [Patch.run] in H. unfold Patch.affected_paths in Hin. cbn [flat_map] in Hin. apply in_app_or in Hin.
+  destruct (Patch.exec [] s o) as [s1 [e|]] eqn:E; [inversion H; discriminate|].
+  destruct Hin as [Hin|Hin].
+  - exfalso. exact (exec_dir_fails _ _ _ _ _ Hin D E eq_refl).
+  - destruct s as [f0 u0]. cbn [Patch.s_fs] in *.
+    destruct (PatchAtomic.exec_shape _ _ _ _ _ W E) as (W1 & D1 & _).
+    eapply (IH s1 s' r p W1 Hin); [|exact H]. eapply dir_at_mono; [exact D1|exact D].
+Qed.
+
+(* no checkpoint of the affected paths (one of them is a directory) => the patch does not apply, and a patch that
+   does not apply changes no file (C12's atomicity) *)
+Theorem auto_patch_no_checkpoint f root ops e :
+  is_absolute root = true -> FsProofs.fs_wf f -> okops ops ->
+  create f root (Patch.affected_paths ops) = Err e ->
+  exists g e', Patch.apply_ops true [] f ops = Patch.Failed g e' /\ forall q, file_at g q = file_at f q.
+Proof.
+  intros Hr W Hok Hc. destruct (create_err_dir f root _ e Hr Hok Hc) as (p & Hin & L & O).
+  destruct (Patch.apply_ops true [] f ops) as [g c|g e'] eqn:Ea.
+  - exfalso. unfold Patch.apply_ops in Ea. destruct (Patch.run [] _ ops) as [s [x|]] eqn:Er; [discriminate|].
+    exact (run_dir_fails ops {| Patch.s_fs := f; Patch.s_undo := [] |} s None p W Hin (conj L O) Er eq_refl).
+  - exists g, e'. split; [reflexivity|]. exact (PatchAtomic.apply_ops_atomic f ops g e' W Ea).
+Qed.
+
+Theorem auto_patch_text_no_checkpoint f root text ops e :
+  is_absolute root = true -> Patch.wf_fsb f = true -> Patch.parse_patch text = Some ops ->
+  create f root (Patch.affected_paths ops) = Err e ->
+  exists g e', Patch.apply_patch true [] f text = Patch.Failed g e' /\ forall q, file_at g q = file_at f q.
+Proof.
+  intros Hr W Hp Hc. unfold Patch.apply_patch. rewrite Hp.
+  exact (auto_patch_no_checkpoint f root ops e Hr (PatchAtomic.wf_fsb_sound f W) (parse_patch_ok text ops Hp) Hc).
+Qed.
